@@ -233,6 +233,38 @@ def run(tier):
                     rep.violation("block_name:conv%d:parts" % conv, "P_parts_invert_block_name", det)
                 if skip and nlay >= skip and any(l.name == geo.layerlist[0].name for l in geo.layerlist[1:]):
                     rep.violation("add_layers:conv%d:surface-layer-name-reused" % conv, "P_generated_names_distinct", det)
+                # the same names, lengths and name parts after the geometry has been written to a file and read back
+                if not bad and ncols * nlay <= 4000:
+                    import os
+                    import tempfile
+                    fd, path = tempfile.mkstemp(prefix="verif-c17-", suffix=".dat")
+                    os.close(fd)
+                    try:
+                        with core.watchdog(300), core.quiet():
+                            geo.write(path)
+                            g2 = m.mulgrid(path)
+                        why = None
+                        if [c.name for c in g2.columnlist] != [c.name for c in geo.columnlist] or \
+                                [l.name for l in g2.layerlist] != [l.name for l in geo.layerlist]:
+                            why = "column / layer names %s %s" % ([c.name for c in g2.columnlist][:3], [l.name for l in g2.layerlist][:3])
+                        elif list(g2.block_name_list) != list(geo.block_name_list):
+                            why = "block names %s" % list(g2.block_name_list)[:4]
+                        elif (g2.colname_length, g2.layername_length) != (geo.colname_length, geo.layername_length):
+                            why = "name lengths %r" % ((g2.colname_length, g2.layername_length),)
+                        else:
+                            for col in g2.columnlist[:20]:
+                                for lay in g2.layerlist[1:20]:
+                                    b = g2.block_name(lay.name, col.name)
+                                    if g2.column_name(b) != col.name or g2.layer_name(b) != lay.name or len(b) != 5:
+                                        why = "parts of %r" % b
+                        if why:
+                            det["after_file_cycle"] = why
+                            rep.violation("file-cycle:conv%d:names" % conv, "P_parts_invert_block_name", det)
+                    except Exception as ex:
+                        det["error"] = repr(ex)
+                        rep.violation("file-cycle:conv%d:raises" % conv, "P_naming_error_explicit", det)
+                    finally:
+                        os.unlink(path)
     # custom alphabets, incl. mixed-case sets folded by the case option (the folded set has repeats to be removed)
     for chars, case in (("aAbBcCdD", "l"), ("aAbBcCdD", "u"), ("xyzXYZ", "l"), ("QWERTY", None), ("abcde", "u"), ("aAbBcCdD", None)):
         for conv in (0, 3):
